@@ -26,7 +26,7 @@
    from its restart value, passes its maximum, which is arithmetic the abstract scalar type does not have; the
    harness observes termination under an alarm. *)
 From Coq Require Import ZArith List Bool Reals Lra.
-From Adept Require Import Scalar Minim MinimProofs MinimReal ExprReal MinimFlow MinimFlowProofs MinimCG MinimCGProofs MinimLBFGS MinimLBFGSProofs MinimTerm.
+From Adept Require Import Scalar Minim MinimProofs MinimReal RealOps MinimFlow MinimFlowProofs MinimCG MinimCGProofs MinimLBFGS MinimLBFGSProofs MinimTerm.
 From AdeptGen Require Import Gen_Minim.
 Import ListNotations.
 Local Open Scope Z_scope.
